@@ -4,8 +4,12 @@ from __future__ import annotations
 import collections
 import collections.abc
 import dataclasses
+import decimal
+import enum
+import fractions
 import itertools
 import json
+import pathlib
 import random
 import types
 import typing
@@ -26,33 +30,45 @@ LEVEL_TEXT = ("Theorems over the executable model of serdes.iteritems / itervalu
               "(`values_are_items_snd`, `values_are_given_pairs`), a one-shot iterator delivers as many items as it had elements, "
               "the peeked first one first, and nothing when empty (`oneshot_all_delivered`, `oneshot_first_included`, "
               "`oneshot_empty`), a named tuple is never read as pairs and keeps every field (`namedtuple_never_pairs`), private "
-              "fields are skipped (`private_fields_skipped`), given pairs come back unchanged (`pairs_given`). Tied to /repo by the "
+              "fields are skipped (`private_fields_skipped`), given pairs come back unchanged (`pairs_given`), a member of an enumeration "
+              "without str mix-in yields nothing (`member_without_str_yields_nothing`); outside the domain a value either is a scalar "
+              "(None, bool, int, float, Decimal, Fraction, PurePath, Pattern, date, datetime, time, timedelta) and both functions raise "
+              "TypeError, or the model does not answer, and TypeError at the call comes from scalars only (`scalars_raise_type`, "
+              "`outside_domain`, `type_error_only_scalars`). Tied to /repo by the "
               "correspondence on generated values (same value through the real functions, consumed as `for k, v in ...`, and "
               "through the Lean driver) and judged directly by an oracle computed from Python itself.")
 LEVEL_NOTE = ("Trusted: Lean kernel, standard axioms; model tied by correspondence. 'x is not modified' is definitional in the model "
               "(a function of the value) and therefore not claimed as a theorem: it is observed on the real code by the oracle "
               "(structural snapshot before/after; one-shot iterators are checked for full, exact consumption through a tee). "
               "Outside the model and judged by the oracle alone: (index, element) pairs of sets with two or more elements (hash "
-              "order), bytes-like inputs and elements, ClassVar / InitVar declarations, classes without annotations.")
+              "order), bytes-like inputs and elements, ClassVar / InitVar declarations. Instances of classes without annotations "
+              "(slots-only, vars-only) are given to the model as `.inst c fs` with the attributes that are set, in __slots__ / "
+              "assignment order.")
 TECHNIQUE = "Lean 4 theorems (specification equality by cases + list inductions on enumerate); differential correspondence; independent Python oracle"
 DESIGN_REF = "DESIGN.md §5 C18"
 MODULES = ["TypelibModel.Props.C18"]
 TABLES = False
 RULE = ("dict / OrderedDict / MappingProxyType / custom Mapping / dict subclass; instances of dataclasses (plain, slots, frozen, with "
         "ClassVar / InitVar / kw_only), NamedTuples (incl. first field 'ab' or (1, 2)) and collections.namedtuple, TypedDict "
-        "instances, annotated plain classes with private and ClassVar attributes, annotated __slots__ classes, slots-only and "
-        "vars-only classes without annotations; lists / tuples / deques / sets / frozensets / list and tuple subclasses / custom "
+        "instances, annotated plain classes with private and ClassVar attributes, annotated __slots__ classes; generated classes "
+        "without annotations: slots-only (1-4 slots, at least one public, private slots set or unset, assigned in any order) and "
+        "vars-only (0-4 attributes), whose constructor parameters are named like the attribute, renamed (attribute _b from "
+        "parameter b), annotated or absent (attributes stored from constants), plus hand-written ones; members of enumerations "
+        "without str mix-in (Enum, IntEnum: nothing is yielded); lists / tuples / deques / sets / frozensets / list and tuple subclasses / custom "
         "Sequence / custom re-iterable of 0-4 generated elements (2-tuples, 2-lists, 2-character strings, 2-key dicts, 2-field "
         "named tuples, other lengths, scalars, instances, sets, bytes; homogeneous or mixed so that the first element decides); "
         "one-shot iterators of the same (list iterator, generator, custom iterator, map object, tee); str / bytes / bytearray / "
-        "range / dict views. Every case is built fresh per call and run twice, in a random order, in a forked child (cold and "
+        "range / dict views; for the correspondence only: scalars (None, bool, int, float, Decimal, Fraction, "
+        "PurePosixPath, Pattern, date, timedelta: TypeError from both functions). Every case is built fresh per call and run twice, in a random order, in a forked child (cold and "
         "warm strategy cache). non-trivial = non-empty input")
 ASSUMPTIONS = ["the consumer of iteritems unpacks each item as `k, v = item` (this is how the library itself consumes it)",
-               "a class without annotations has a constructor whose parameters, if any, are named like its public attributes "
-               "(the library reads the fields of such a class from the constructor signature; see EXCLUDED)"]
+               "the fields of a slots-only class are the names of its own __slots__ tuple, all public ones assigned; the fields of a "
+               "vars-only class are the keys of vars(obj) (see EXCLUDED for what lies beyond)"]
 TRUSTED = ["harness encoders/generators", "hand-written model tied by correspondence"]
-EXCLUDED = ("classes without annotations whose constructor parameters are not attribute names (e.g. __slots__ = ('a', '_b') with "
-            "__init__(self, a, b)): the fields are taken from the signature, getattr(obj, 'b') raises AttributeError")
+EXCLUDED = ("slots-only classes outside the assumption, where the library does not yield the public attributes that are set: a public "
+            "slot left unassigned (AttributeError when the item is reached), __slots__ inherited from a base class (only the most "
+            "derived __slots__ is read), private slots only or __slots__ = () (TypeError from vars()), __slots__ given as one string, "
+            "__slots__ containing '__dict__' (the instance attributes are not yielded)")
 
 MOD = "vm_c18"
 ANY = ["any"]
@@ -68,7 +84,7 @@ def _enum(cid, name, mixin, members):
             "members": [[f"m{i}", v] for i, v in enumerate(members)], "fields": [], "required": [], "defaults": []}
 
 
-DC, DCS, DCF, NT2, NT1, NT3, TD, PL, SL, PLK, ES, EI = range(12)
+DC, DCS, DCF, NT2, NT1, NT3, TD, PL, SL, PLK, ES, EI, EN, AV, AS = range(15)
 PROG = {"classes": [
     _cls(DC, "DC", "dataclass", ["a", "b", "_p"]),
     _cls(DCS, "DCS", "dataclass", ["x", "y"], ["slots"]),
@@ -82,6 +98,10 @@ PROG = {"classes": [
     _cls(PLK, "PLK", "plain", ["a", "_p"]),        # + `K: ClassVar[int] = 7`, added after materialisation
     _enum(ES, "ES", "str", ["ab", "x", ""]),
     _enum(EI, "EI", "int", [2, 7]),
+    _enum(EN, "EN", "none", [1, "ab", "x"]),   # no str mix-in: the member whose value is 'ab' is not a 2-element collection
+    # model-side classes of the instances of generated classes without annotations (never instantiated themselves):
+    _cls(AV, "AV", "plain", []),               # vars-only
+    _cls(AS, "AS", "slots", []),               # slots-only
 ], "aliases": {}}
 STRUCTS = [DC, DCS, DCF, NT2, NT1, NT3, TD, PL, SL, PLK]
 HASHABLE_STRUCTS = [DCF, NT2, NT1, NT3]
@@ -109,6 +129,24 @@ class SlotsOnly:
 
     def __init__(self, a, c):
         self.a, self._b, self.c = a, [a], c
+
+
+class SlotsRenamed:
+    """constructor parameter `b` is stored in the private slot `_b`"""
+    __slots__ = ("a", "_b", "c")
+
+    def __init__(s, a, b, c):
+        s.a, s._b, s.c = a, b, c
+
+
+class VarsExtra:
+    """attributes renamed (`a` from `x`), private (`_h` from `y`), and not constructor parameters at all (`extra`, `y2`)"""
+
+    def __init__(self, x, y=2):
+        self.a = x
+        self._h = y
+        self.extra = [x]
+        self.y2 = y
 
 
 class SlotsNoArgs:
@@ -230,6 +268,39 @@ class CustomIter:
         return self._xs[self._i - 1]
 
 
+_DYN = {}
+
+
+def dyn_class(spec, P):
+    """A class without annotations, from its description (memoised: the second call meets a warm strategy cache).
+
+    spec = {"kind": "slots" | "vars", "slots": [names] (slots only), "params": [names], "ann": bool,
+            "attrs": [[attribute, source], ...] in assignment order; source = index of a parameter | ["c", Val]}"""
+    key = json.dumps(spec, sort_keys=True)
+    if key not in _DYN:
+        consts = {i: src[1] for i, (_, src) in enumerate(spec["attrs"]) if not isinstance(src, int)}
+        ps = "".join(f", {p}: int" if spec.get("ann") else f", {p}" for p in spec["params"])
+        lines = [f"class Dyn{len(_DYN)}:"]
+        if spec["kind"] == "slots":
+            lines.append(f"    __slots__ = {tuple(spec['slots'])!r}")
+        lines.append(f"    def __init__(self{ps}):")
+        for i, (an, src) in enumerate(spec["attrs"]):
+            lines.append(f"        self.{an} = " + (spec["params"][src] if isinstance(src, int) else f"_const({i})"))
+        lines.append("        pass")
+        ns = {"_const": lambda i: enc.to_py(consts[i], P), "__name__": MOD + "_dyn"}
+        exec("\n".join(lines), ns)  # noqa: S102
+        _DYN[key] = ns[f"Dyn{len(_DYN)}"]
+    return _DYN[key]
+
+
+def dyn_attrs(d):
+    """[[attribute, Val]] of the instance, in the order the fields are defined (slots order / assignment order)."""
+    spec = d["dyn"]
+    by = {an: (d["args"][src] if isinstance(src, int) else src[1]) for an, src in spec["attrs"]}
+    order = [s for s in spec["slots"] if s in by] if spec["kind"] == "slots" else [an for an, _ in spec["attrs"]]
+    return [[an, by[an]] for an in order]
+
+
 def _gen(xs):
     for x in xs:
         yield x
@@ -253,6 +324,10 @@ FACTORIES = {
     "SlotsOnly": (lambda: SlotsOnly(1, (1, 2)), ["a", "c"]),
     "SlotsOnly-pairfirst": (lambda: SlotsOnly("ab", None), ["a", "c"]),
     "SlotsNoArgs": (SlotsNoArgs, ["p", "q"]),
+    "SlotsRenamed": (lambda: SlotsRenamed(1, 2, 3), ["a", "c"]),
+    "SlotsRenamed-pairfirst": (lambda: SlotsRenamed((1, 2), "xy", [3]), ["a", "c"]),
+    "VarsExtra": (lambda: VarsExtra((1, 2)), ["a", "extra", "y2"]),
+    "VarsExtra-2": (lambda: VarsExtra("ab", y=None), ["a", "extra", "y2"]),
     "VarsOnly": (lambda: VarsOnly((1, 2), [3]), ["a", "c"]),
     "VarsNoArgs": (VarsNoArgs, ["p", "q"]),
     "Empty": (Empty, []),
@@ -282,8 +357,49 @@ FACTORIES = {
 
 # --------------------------------------------------------------------------- generation of Val descriptions
 
-ATOMS = [0, 1, 5, -3, None, True, False, "", "a", "abc", "héllo", ["f", "1.5"], ["m", EI, 0]]
-HATOMS = [0, 1, 5, -3, None, "", "a", "abc", ["f", "1.5"]]
+ATOMS = [0, 1, 5, -3, None, True, False, "", "a", "abc", "héllo", ["f", "1.5"], ["m", EI, 0], ["m", EN, 1], ["frac", 1, 2],
+         ["dec", "1.5"], ["path", "a/b"]]
+HATOMS = [0, 1, 5, -3, None, "", "a", "abc", ["f", "1.5"], ["m", EN, 1], ["m", EN, 0]]
+SCALARS = [5, 0, None, True, ["f", "1.5"], ["f", "-0.0"], ["frac", 1, 2], ["frac", 3, 1], ["dec", "1.5"], ["dec", "0"], ["path", "a/b"],
+           ["path", "."], ["pat", "a+"], ["date", 737000], ["td", 5]]
+PUB_NAMES = ["a", "b", "c", "x", "y2", "extra", "items", "k_"]
+PRIV_NAMES = ["_b", "_h", "_a", "_"]
+
+
+def g_dyn(r, kind=None):
+    """An instance of a generated class without annotations."""
+    kind = kind or r.choice(["slots", "vars"])
+    n = r.choice([1, 2, 2, 3, 3, 4]) if kind == "slots" else r.choice([0, 1, 2, 3, 3, 4])
+    npub = r.randint(1 if kind == "slots" else 0, n)
+    names = r.sample(PUB_NAMES, npub) + r.sample(PRIV_NAMES, n - npub)
+    r.shuffle(names)
+    spec = {"kind": kind, "params": [], "ann": r.random() < 0.25, "attrs": []}
+    args = []
+    assigned = list(names)
+    if kind == "slots":
+        spec["slots"] = list(names)
+        # a private slot may stay unassigned (it is never read); the assignment order is free
+        assigned = [nm for nm in names if not nm.startswith("_") or r.random() < 0.8]
+        r.shuffle(assigned)
+    for i, nm in enumerate(assigned):
+        first = i == 0 and r.random() < 0.5
+        v = g_elem(r, False, r.choice(["t2", "s2", "l2", "nt2"])) if first else g_elem(r, False)
+        x = r.random()
+        if x < 0.3:                    # not a constructor parameter at all
+            spec["attrs"].append([nm, ["c", v]])
+            continue
+        if x < 0.55:                   # parameter named like the attribute (a private one cannot be: `_b` from `b`)
+            pn = nm.lstrip("_") or "u"
+        elif x < 0.8:                  # renamed
+            pn = f"p{i}"
+        else:                          # named like *another* attribute
+            pn = r.choice(names).lstrip("_") or "u"
+        if pn in spec["params"]:
+            pn = f"{pn}_{i}"
+        spec["attrs"].append([nm, len(spec["params"])])
+        spec["params"].append(pn)
+        args.append(v)
+    return {"dyn": spec, "args": args}
 
 
 def g_elem(r, hashable=False, kind=None, depth=1):
@@ -367,12 +483,17 @@ def g_desc(r):
     x = r.random()
     if x < 0.5:
         d = {"val": g_container(r)}
-    elif x < 0.72:
+    elif x < 0.66:
         d = {"val": g_inst(r)}
-    elif x < 0.87:
+    elif x < 0.76:
         d = {"val": g_dict(r)}
+    elif x < 0.80:
+        d = g_dyn(r)
+    elif x < 0.89:
+        d = {"val": r.choice(["", "a", "ab", "abc", "héllo wörld", ["m", ES, 0], ["m", ES, 1], ["m", ES, 2],
+                              ["m", EN, 0], ["m", EN, 1], ["m", EI, 1]])}
     elif x < 0.93:
-        d = {"val": r.choice(["", "a", "ab", "abc", "héllo wörld", ["m", ES, 0], ["m", ES, 1], ["m", ES, 2]])}
+        d = {"val": r.choice(SCALARS), "noracle": True}
     else:
         d = {"py": r.choice(sorted(FACTORIES))}
     if "val" in d and isinstance(d["val"], list) and d["val"][0] in WRAPS_OF and r.random() < 0.35:
@@ -410,10 +531,20 @@ def fixed_descs():
         {"val": ["o", PLK, [["a", T(1, 2)], ["_p", 2]]]}, {"val": ["o", PLK, [["a", 1], ["_p", 2]]]},
         {"val": ""}, {"val": "a"}, {"val": "ab"}, {"val": "abc"}, {"val": ["m", ES, 0]}, {"val": ["m", ES, 2]},
         {"val": ["x", "opaque"]},
-        # outside the quantifier, kept for the correspondence of the model's remaining rows
-        {"val": 5, "noracle": True}, {"val": None, "noracle": True}, {"val": ["f", "1.5"], "noracle": True},
-        {"val": ["frac", 1, 2], "noracle": True}, {"val": ["m", EI, 0], "noracle": True},
+        # members of enumerations without str mix-in: structured objects whose attributes are all private
+        {"val": ["m", EI, 0]}, {"val": ["m", EI, 1]}, {"val": ["m", EN, 0]}, {"val": ["m", EN, 1]}, {"val": ["m", EN, 2]},
+        # classes without annotations: the two shapes of the repaired defect, then one of each generated kind
+        {"dyn": {"kind": "slots", "slots": ["a", "_b", "c"], "params": ["a", "b", "c"], "ann": False, "attrs": [["a", 0], ["_b", 1], ["c", 2]]},
+         "args": [1, 2, 3]},
+        {"dyn": {"kind": "slots", "slots": ["a", "_b", "c"], "params": ["c", "a"], "ann": True, "attrs": [["c", 1], ["a", 0]]},
+         "args": [T(1, 2), "ab"]},
+        {"dyn": {"kind": "vars", "params": ["x", "y"], "ann": False,
+                 "attrs": [["a", 0], ["_h", 1], ["extra", ["c", ["l", [1]]]], ["y2", 1]]}, "args": [T(1, 2), 2]},
+        {"dyn": {"kind": "vars", "params": [], "ann": False, "attrs": [["_h", ["c", 0]]]}, "args": []},
+        {"dyn": {"kind": "vars", "params": ["b"], "ann": False, "attrs": [["a", ["c", "ab"]], ["b", ["c", 5]]]}, "args": [7]},
     ]
+    # outside the quantifier, kept for the correspondence of the model's remaining rows (TypeError from vars())
+    out += [{"val": v, "noracle": True} for v in SCALARS]
     out += [{"py": k} for k in sorted(FACTORIES)]
     return out
 
@@ -423,6 +554,8 @@ def fixed_descs():
 def build(d, P):
     if "py" in d:
         return FACTORIES[d["py"]][0]()
+    if "dyn" in d:
+        return dyn_class(d["dyn"], P)(*[enc.to_py(a, P) for a in d["args"]])
     x = enc.to_py(d["val"], P)
     if "wrap" in d:
         x = WRAPS[d["wrap"]][1](x)
@@ -433,6 +566,10 @@ def model_val(d, P):
     """The Val the model is given for this description, None = not expressible."""
     if "py" in d:
         return None
+    if "dyn" in d:
+        # `.inst c fs`: a structured object of a plain / __slots__ class with the instance fields fs
+        return ["o", AS if d["dyn"]["kind"] == "slots" else AV,
+                [[an, enc.from_py(enc.to_py(v, P), P)] for an, v in dyn_attrs(d)]]
     v = d["val"]
     if isinstance(v, list) and v[0] == "it":
         return ["it", [enc.from_py(enc.to_py(e, P), P) for e in v[1]]]
@@ -467,13 +604,16 @@ def observe(fn, x, P, unpack):
     return {"ok": out}
 
 
+_IMMUTABLE = (decimal.Decimal, fractions.Fraction, pathlib.PurePath, enum.Enum)
+
+
 def snap(x, depth=0):
     """Structural snapshot (no addresses) to detect modification of the input."""
     t = type(x)
     if depth > 8:
         return "..."
-    if x is None or t in (bool, int, float, str, bytes, bytearray, range):
-        return repr(x)
+    if x is None or t in (bool, int, float, str, bytes, bytearray, range) or isinstance(x, _IMMUTABLE):
+        return repr(x)       # (a PurePath caches its text in a slot: not a modification)
     if isinstance(x, collections.abc.Mapping):
         return [t.__name__, [[snap(k, depth + 1), snap(v, depth + 1)] for k, v in x.items()]]
     if isinstance(x, (set, frozenset)):
@@ -511,7 +651,7 @@ def python_public_fields(x):
             for k in reversed(tp.__mro__):
                 sl = k.__dict__.get("__slots__", ())
                 slots += [sl] if isinstance(sl, str) else list(sl)
-            names = slots if slots else list(vars(x))
+            names = [s for s in slots if hasattr(x, s)] if slots else list(vars(x))
     return [n for n in names if not n.startswith("_")]
 
 
@@ -551,7 +691,13 @@ def oracle(serdes, d, P, fails, tags):
     x = mk()
     kind = classify(x)
     tags.append(kind)
-    decl = FACTORIES[d["py"]][1] if "py" in d else (PUBLIC.get(d["val"][1]) if isinstance(d.get("val"), list) and d["val"][0] == "o" else None)
+    if "py" in d:
+        decl = FACTORIES[d["py"]][1]
+    elif "dyn" in d:
+        decl = [an for an, _ in dyn_attrs(d) if not an.startswith("_")]
+        tags.append("class-without-annotations:" + d["dyn"]["kind"])
+    else:
+        decl = PUBLIC.get(d["val"][1]) if isinstance(d.get("val"), list) and d["val"][0] == "o" else None
 
     def call(fn, subject, what):
         try:
@@ -605,6 +751,8 @@ def oracle(serdes, d, P, fails, tags):
             raise RuntimeError(f"harness: declared public fields {decl} != {names} for {d}")
         exp_items, given = [(n, getattr(x, n)) for n in names], False
         exp_vals = [v for _, v in exp_items]
+        if "dyn" in d and pairs_of(exp_items, P) != [[an, enc.from_py(enc.to_py(v, P), P)] for an, v in dyn_attrs(d) if not an.startswith("_")]:
+            raise RuntimeError(f"harness: the generated instance does not hold the described attributes: {d}")
     raw = call(serdes.iteritems, x, "iteritems")
     if raw is not None:
         if given:
@@ -697,7 +845,7 @@ def drive_all(mvals):
 
 
 def brief(d):
-    return {k: d[k] for k in d if k in ("val", "wrap", "py")}
+    return {k: d[k] for k in d if k in ("val", "wrap", "py", "dyn", "args")}
 
 
 def judge(res, d, o, model):
